@@ -164,8 +164,9 @@ def stats(trace_text):
 
 
 def run_family(ctx, pid, make_cases, rule, extra_tb=None, assumptions=None, corpus_glob=None,
-               extra_cov=None, post=None, runner=None):
-    """make_cases(tier, seed) -> list of gen.Case.  post(ctx, d) -> optional (broken, cov) hook
+               extra_cov=None, post=None, runner=None, wire_every=0):
+    """make_cases(tier, seed) -> list of gen.Case.  wire_every=n > 0: every n-th generated case is run
+    with wire-shaped arguments (gen.Case.wire; memrun only) -- both argument shapes are legitimate inputs.  post(ctx, d) -> optional (broken, cov) hook
     for property-specific extra correspondence (run after the main differential run).
     runner: callable with run_prog's signature (default run_prog = harness subcommand memrun), e.g.
     functools.partial(run_prog, subcmd="memx", extra="handle", chunk=2000)."""
@@ -184,6 +185,7 @@ def run_family(ctx, pid, make_cases, rule, extra_tb=None, assumptions=None, corp
         print("\n".join(v or []), err or "")
         return 1 if (err or mismatching(v)) else 0
     failing = None
+    nwire = 0
     nsteps, cmds, kinds, shapes, ncases = 0, collections.Counter(), collections.Counter(), set(), 0
     samples = []
     if not berr:
@@ -192,6 +194,11 @@ def run_family(ctx, pid, make_cases, rule, extra_tb=None, assumptions=None, corp
         for f in sorted(cdir.glob(corpus_glob or (pid.lower() + "_*.prog"))):
             texts.append(("corpus:" + f.name, f.read_text()))
         cases = make_cases(ctx.tier, ctx.seed)
+        if wire_every:
+            for i, c in enumerate(cases):
+                if i % wire_every == wire_every - 1 and hasattr(c, "wire"):
+                    c.wire = True
+            nwire = sum(1 for c in cases if getattr(c, "wire", False))
         texts.append(("generated", "".join(c.text() for c in cases)))
         for tag, text in texts:
             v, trace, err = run(d, text, tag="main", timeout=(300 if ctx.tier == "quick" else 2400))
@@ -244,6 +251,8 @@ def run_family(ctx, pid, make_cases, rule, extra_tb=None, assumptions=None, corp
         samples=samples or ["(none)"],
         correspondence="server.Manager.ExecCommand (REPO working tree, -tags verif,faketime) vs extracted srv_exec: every reply and every keyspace dump compared",
     ))
+    if wire_every:
+        cov["programs_with_wire_shaped_arguments"] = nwire
     cov.update(extra_cov or {})
     cov.update(pcov or {})
     lib.write_evidence(pid, ctx.tier, ctx.seed, cov,
